@@ -195,6 +195,9 @@ func (s *sgen) runCase(id int) bool {
 				fault = []string{"dup", "dup1", "drop", "late"}[s.r.intn(4)]
 			} else if s.r.chance(s.p.pMut) {
 				mut = s.genMut(c)
+				if mut.Key != "" || mut.DUID != "" { // two packs of one request must not name the same datatype
+					sel = []int{rs[s.r.intn(len(rs))]}
+				}
 			}
 			s.hold++
 			hung = s.emit(s.w.stepSync(c, sel, fault, s.hold, mut))
